@@ -187,9 +187,10 @@ def normalise_locals(relpath: str, tree: ast.Module) -> int:
                 key = f"{relpath}::{prefix}{st.name}"
                 want = ref.get(key)
                 if want is not None:
-                    _inline_new_temps(st, want)
-                    have = binding_order(st)
-                    if have != want:
+                    for _round in range(3):
+                        have = binding_order(st)
+                        if have == want:
+                            break
                         mapping = {}
                         sm = difflib.SequenceMatcher(a=have, b=want, autojunk=False)
                         for tag, i1, i2, j1, j2 in sm.get_opcodes():
@@ -205,6 +206,10 @@ def normalise_locals(relpath: str, tree: ast.Module) -> int:
                         if safe:
                             _rename(st, safe)
                             done += 1
+                        before = ast.dump(st)
+                        _inline_new_temps(st, want)
+                        if not safe and ast.dump(st) == before:
+                            break
                 rc = ref.get(key + "::==")
                 if rc:
                     _orient_compares(st, rc)
